@@ -68,6 +68,9 @@ def match_generic(kind, prop, fields):
         sig = f.get("signature", {})
         if sig.get("kind") != kind or f.get("property") != prop:
             continue
-        if all(fields.get(k) == v for k, v in sig.get("match", {}).items()):
-            return dict(id=f["id"], property=f["property"], what=f["what"])
+        if not all(fields.get(k) == v for k, v in sig.get("match", {}).items()):
+            continue
+        if not all(fields.get(k) in v for k, v in sig.get("match_in", {}).items()):
+            continue
+        return dict(id=f["id"], property=f["property"], what=f["what"])
     return None
